@@ -225,13 +225,30 @@ fn marker_text(path: &str, root: &str) -> Vec<u8> {
     }
 }
 
-fn directive_text(directive: &str, url: &str, sass: bool) -> String {
+/// `form` varies how a module-loading directive is written; the search it performs is the same.
+fn directive_text(directive: &str, url: &str, sass: bool, form: u64) -> String {
     let semi = if sass { "" } else { ";" };
     match directive {
         "import" => format!("@import \"{}\"{}\n", url, semi),
-        "use" => format!("@use \"{}\" as u{}\n", url, semi),
-        "forward" => format!("@forward \"{}\"{}\n", url, semi),
-        _ => format!("@use \"sass:meta\"{}\n@include meta.load-css(\"{}\"){}\n", semi, url, semi),
+        "use" => match form % 4 {
+            1 => format!("@use \"{}\" as *{}\n", url, semi),
+            _ => format!("@use \"{}\" as u{}\n", url, semi),
+        },
+        "forward" => match form % 6 {
+            1 => format!("@forward \"{}\" as p-*{}\n", url, semi),
+            2 => format!("@forward \"{}\" show nothing-at-all{}\n", url, semi),
+            3 => format!("@forward \"{}\" hide nothing-at-all{}\n", url, semi),
+            _ => format!("@forward \"{}\"{}\n", url, semi),
+        },
+        // the statement stays on line 3 in every form
+        // (the URL is always passed by position: grass calls the parameter $module, Sass $url;
+        // the property is about the search, not about the name of the parameter)
+        _ => match form % 6 {
+            1 => format!("@use \"sass:meta\"{}\n@include meta.load-css(\"{}\", $with: ()){}\n", semi, url, semi),
+            2 => format!("@use \"sass:meta\"{}\n@include meta.load-css(\"{}\", $with: null){}\n", semi, url, semi),
+            4 if !sass => format!("@use \"sass:meta\"; $u: \"{}\";\n@include meta.load-css($u, $with: ());\n", url),
+            _ => format!("@use \"sass:meta\"{}\n@include meta.load-css(\"{}\"){}\n", semi, url, semi),
+        },
     }
 }
 
@@ -296,7 +313,7 @@ fn gen_case(rng: &mut Rng, root: &str) -> ImportCase {
             body.push_str(&format!(".wrap {{ @import \"{}\"; }}\n", url));
         }
     } else {
-        body.push_str(&directive_text(directive, &url, importer_sass));
+        body.push_str(&directive_text(directive, &url, importer_sass, rng.below(12)));
     }
     let line = if directive == "load-css" { 3 } else if nested && importer_sass { 3 } else { 2 };
     files.push((importer.clone(), body.into_bytes()));
@@ -399,7 +416,7 @@ fn gen_twin_case(rng: &mut Rng, root: &str) -> ImportCase {
     let entry = join(root, "main.scss");
     let reach = if rng.chance(0.5) { "@import \"a/one\";\n@import \"b/two\";\n".to_string() } else { "@use \"a/one\" as o;\n@use \"b/two\" as t;\n".to_string() };
     let for_reach = reach.starts_with("@import");
-    let body = format!("/* importer */\n{}", directive_text(directive, &url, false));
+    let body = format!("/* importer */\n{}", directive_text(directive, &url, false, rng.below(12)));
     let mut files: Vec<(String, Vec<u8>)> = vec![(entry.clone(), reach.into_bytes()), (one.clone(), body.clone().into_bytes()), (two.clone(), body.into_bytes())];
     // sometimes a/one lists the URL twice in ONE rule (`@import "u", "u"` is two loads from the same file),
     // and b/two still follows
